@@ -1358,7 +1358,8 @@ impl World {
             if pre.role == StateRole::Follower && post.role == StateRole::Follower {
                 let l = self.live(i).unwrap();
                 let fresh: Vec<&Message> = l.rn.raft.msgs.iter().skip(pre.msgs_len.min(l.rn.raft.msgs.len())).collect();
-                let ok = if pre.lead == 0 {
+                let ok = if pre.lead == 0 || *t == 0 {
+                    // no leader known, or the request names no node (id 0): nothing to relay
                     fresh.is_empty()
                 } else {
                     fresh.len() == 1
@@ -2131,7 +2132,7 @@ impl World {
         probe("campaign", &mut |c| {
             let _ = c.campaign();
         });
-        for to in [me, other, unknown] {
+        for to in [me, other, unknown, 0] {
             probe("transfer_leader", &mut |c| c.transfer_leader(to));
         }
         for to in [other, unknown] {
